@@ -27,7 +27,7 @@ type world struct {
 	inMap  []*Ctor                   // constructors reachable from TypesConstructorMap, by idx
 	ctorD  []int                     // minimal nesting depth needed to build a value
 	ifD    []int
-	ifBest []int // ctor with minimal depth per interface
+	ifBest []int         // ctor with minimal depth per interface
 	ifImpl map[int][]int // interface -> constructors whose Go type implements it
 	extra  []string
 }
@@ -249,7 +249,11 @@ func (g *gen) fillTy(t *Ty, fv reflect.Value, depth int) {
 	case "str":
 		fv.SetString(string(g.str()))
 	case "bytes":
-		fv.SetBytes(g.str())
+		// an empty value is left nil, as for vectors: SetFlags tests `== nil`, so a non-nil empty
+		// []byte counts as present; that Go-only distinction has no TL counterpart
+		if p := g.str(); len(p) > 0 {
+			fv.SetBytes(p)
+		}
 	case "bool":
 		fv.SetBool(r.Bool())
 	case "iface":
@@ -561,5 +565,68 @@ func setFlagsDeep(v reflect.Value) {
 		for i := 0; i < v.Len(); i++ {
 			setFlagsDeep(v.Index(i))
 		}
+	}
+}
+
+// showPre prints the value as the caller built it, *before* any SetFlags, as a plain view of the
+// Go struct: the stored flags word, and every conditional field with its Go value (zero values
+// included; a nil interface or an all-zero struct prints `_`). The model applies its own `normVal`
+// (SetFlags + presence) to this before encoding.
+func (w *world) showPre(b *strings.Builder, c *Ctor, sv reflect.Value) {
+	b.WriteByte('(')
+	b.WriteString(strconv.Itoa(c.Idx))
+	b.WriteByte(':')
+	var words []uint32
+	for i, f := range c.Fields {
+		if i > 0 {
+			b.WriteByte(',')
+		}
+		fv := sv.Field(i)
+		switch {
+		case f.Ty.K == "flags":
+			words = append(words, uint32(fv.Uint()))
+			b.WriteString(strconv.FormatUint(fv.Uint(), 10))
+		case f.Cond && f.Ty.K == "iface" && fv.IsNil():
+			b.WriteByte('_')
+		default:
+			w.showTyPre(b, f.Ty, fv)
+		}
+	}
+	b.WriteByte(')')
+}
+
+func (w *world) showTyPre(b *strings.Builder, t *Ty, fv reflect.Value) {
+	switch t.K {
+	case "true":
+		if fv.Bool() {
+			b.WriteByte('T')
+		} else {
+			b.WriteByte('F')
+		}
+	case "iface":
+		if fv.IsNil() {
+			b.WriteByte('_')
+			return
+		}
+		el := fv.Elem()
+		c := w.byType[el.Type().Elem()]
+		if c == nil {
+			b.WriteString("unknown")
+			return
+		}
+		w.showPre(b, c, el.Elem())
+	case "ctor", "bare":
+		w.showPre(b, w.s.Ctors[t.Ref], fv)
+	case "vec":
+		b.WriteByte('[')
+		for i := 0; i < fv.Len(); i++ {
+			if i > 0 {
+				b.WriteByte(',')
+			}
+			w.showTyPre(b, t.Elem, fv.Index(i))
+		}
+		b.WriteByte(']')
+	default:
+		w.showTy(b, t, fv)
 	}
 }
